@@ -49,6 +49,10 @@ def gen(rng, nexec):
                 out.append("K %d 1" % (3 if e % 4 == 1 else 2))
                 out.append("S %d 1" % (3 if e % 4 == 1 else 2))
         kinds = ["init", "init", "algebra", "translate", "clipd", "clips", "srcclip", "comp", "comp", "comp"]
+        if rich and e % 5 in (1, 3):        # image 5: an alpha map for the source and / or the mask (never unreferenced itself)
+            out.append("I 5 %d %d %d %d" % (rng.randint(1, 8), rng.randint(1, 5), rng.randrange(1, 2 ** 31), rng.choice([2, 2, 0, 1])))
+            out.append("M %d 5 %d %d" % (rng.choice([2, 2, 3]), rng.randint(-2, 3), rng.randint(-1, 2)))
+            kinds += ["amap", "amap", "amapoff", "comp", "comp"]
         if rich:
             kinds += ["clipm", "mclip", "repeat", "repeat", "shift", "shift", "ca", "ref", "unref", "fill", "fill",
                       "comp", "comp", "comp", "solidcomp"]
@@ -85,6 +89,14 @@ def gen(rng, nexec):
                 i = rng.choice([2, 2, 3])
                 if refs.get(i):
                     out.append("T %d %d %d" % (i, rng.choice([-9, -2, -1, 0, 1, 2, 3, 17]), rng.choice([-5, -1, 0, 1, 2])))
+            elif k == "amap":
+                i = rng.choice([2, 2, 3])
+                if refs.get(i):
+                    out.append("M %d 5 %d %d" % (i, rng.randint(-2, 3), rng.randint(-1, 2)))
+            elif k == "amapoff":
+                i = rng.choice([2, 3])
+                if refs.get(i):
+                    out.append("M %d 0 0 0" % i)
             elif k == "ca" and refs.get(3) and mfmt != 2:
                 out.append("A 3 %d" % rng.randint(0, 1))
             elif k == "ref":
